@@ -106,40 +106,88 @@ Definition rename_attachments (att : list (pystr * json)) (key : pystr) (local r
 (* ---------- similar concurrent inserts ---------- *)
 Definition mem_str (k : pystr) (l : list pystr) : bool := existsb (str_eqb k) l.
 
-Definition similar_value (pol : similar_id_policy) (k : pystr) (lv rv : json) (merged_source : pystr) : option json :=
-  if str_eqb k k_source then Some (JStr merged_source)
-  else if str_eqb k k_metadata then Some (JObj [(k_local_metadata, lv); (k_remote_metadata, rv)])
-  else if str_eqb k k_id then Some (match pol with SimIdDict => JObj [(k_local_id, lv); (k_remote_id, rv)] | SimIdLocal => lv end)
+(* cell[k] of the attachments branch: `latt = lcell.get(k) or {}` -- an absent key, None and {} read as no attachments;
+   any other non-object value is outside the model (None) *)
+Definition att_or_empty (o : option json) : option (list (pystr * json)) :=
+  match o with
+  | None => Some []
+  | Some JNull => Some []
+  | Some (JObj kv) => Some kv
+  | Some _ => None
+  end.
+
+(* sorted(set(latt) | set(ratt)) *)
+Fixpoint ins_name (n : pystr) (l : list pystr) : list pystr :=
+  match l with
+  | [] => [n]
+  | x :: r => match str_cmp n x with Lt => n :: l | Eq => l | Gt => x :: ins_name n r end
+  end.
+Definition att_names (latt ratt : list (pystr * json)) : list pystr :=
+  fold_right ins_name [] (map fst latt ++ map fst ratt)%list.
+
+Definition att_step (latt ratt : list (pystr * json)) (acc : list (pystr * json)) (name : pystr) : list (pystr * json) :=
+  match obj_get name latt, obj_get name ratt with
+  | Some lv, Some rv =>
+      if py_eqb lv rv then obj_set name lv acc      (* latt[name] != ratt[name] is Python's != *)
+      else obj_set (s_REMOTE ++ name)%list rv (obj_set (s_LOCAL ++ name)%list lv acc)
+  | Some lv, None => obj_set name lv acc
+  | None, Some rv => obj_set name rv acc
+  | None, None => acc
+  end.
+Definition merge_similar_attachments (latt ratt : list (pystr * json)) : list (pystr * json) :=
+  fold_left (att_step latt ratt) (att_names latt ratt) [].
+
+Definition k_attachments := of_ascii "attachments".
+
+(* the value written for a conflicting key k; lo / ro = lcell.get(k) / rcell.get(k); None = exception (KeyError on
+   lcell[k] / rcell[k], ValueError('Conflict on unrecognized key')) *)
+Definition similar_value (pol : similar_id_policy) (apol : similar_att_policy) (k : pystr) (lo ro : option json)
+           (merged_source : pystr) : option json :=
+  if str_eqb k k_source then
+    match lo, ro with Some _, Some _ => Some (JStr merged_source) | _, _ => None end
+  else if str_eqb k k_metadata then
+    match lo, ro with Some lv, Some rv => Some (JObj [(k_local_metadata, lv); (k_remote_metadata, rv)]) | _, _ => None end
+  else if str_eqb k k_id then
+    match pol with
+    | SimIdDict => match lo, ro with Some lv, Some rv => Some (JObj [(k_local_id, lv); (k_remote_id, rv)]) | _, _ => None end
+    | SimIdLocal => lo
+    end
   else if str_eqb k k_execution_count then Some JNull
   else if str_eqb k k_outputs then Some (JArr [])
-  else None.    (* ValueError('Conflict on unrecognized key') *)
+  else if str_eqb k k_attachments then
+    match apol with
+    | SimAttUnsupported => None
+    | SimAttKeepBoth =>
+        match att_or_empty lo, att_or_empty ro with
+        | Some latt, Some ratt => Some (JObj (merge_similar_attachments latt ratt))
+        | _, _ => None
+        end
+    end
+  else None.
 
-Fixpoint similar_conflicts (pol : similar_id_policy) (keys : list pystr) (lcell rcell : list (pystr * json))
-         (merged_source : pystr) (acc : list (pystr * json)) : option (list (pystr * json)) :=
+Fixpoint similar_conflicts (pol : similar_id_policy) (apol : similar_att_policy) (keys : list pystr)
+         (lcell rcell : list (pystr * json)) (merged_source : pystr) (acc : list (pystr * json))
+  : option (list (pystr * json)) :=
   match keys with
   | [] => Some acc
   | k :: ks =>
-      match obj_get k lcell, obj_get k rcell with
-      | Some lv, Some rv =>
-          match similar_value pol k lv rv merged_source with
-          | Some v => similar_conflicts pol ks lcell rcell merged_source (obj_set k v acc)
-          | None => None
-          end
-      | _, _ => None    (* KeyError: lcell[k] / rcell[k] *)
+      match similar_value pol apol k (obj_get k lcell) (obj_get k rcell) merged_source with
+      | Some v => similar_conflicts pol apol ks lcell rcell merged_source (obj_set k v acc)
+      | None => None
       end
   end.
 
-(* keys = the keys patched by the local->remote diff (d.similar_insert[0].diff) *)
-Definition similar_insert_cell_with (pol : similar_id_policy) (lcell rcell : list (pystr * json)) (keys : list pystr)
-           (merged_source : pystr) : option json :=
+(* keys = the keys touched by the local->remote diff (d.similar_insert[0].diff) *)
+Definition similar_insert_cell_with (pol : similar_id_policy) (apol : similar_att_policy) (lcell rcell : list (pystr * json))
+           (keys : list pystr) (merged_source : pystr) : option json :=
   let from_l := filter (fun p => negb (mem_str (fst p) keys)) lcell in
   let from_r := filter (fun p => negb (mem_str (fst p) keys) && negb (obj_has (fst p) lcell)) rcell in
   let acc := fold_left (fun a p => obj_set (fst p) (snd p) a) (from_l ++ from_r)%list [] in
-  match similar_conflicts pol keys lcell rcell merged_source acc with
+  match similar_conflicts pol apol keys lcell rcell merged_source acc with
   | Some kv => Some (JObj kv)
   | None => None
   end.
-Definition similar_insert_cell := similar_insert_cell_with similar_insert_id.
+Definition similar_insert_cell := similar_insert_cell_with similar_insert_id similar_insert_attachments.
 
 (* ---------- the schema positions the rendered values go to ---------- *)
 Definition ref (s : string) : schema := SRef (of_ascii s).
